@@ -186,6 +186,38 @@ let clauses_raw h (impl : string) : (string * bool) list =
                 ("normal", check_normal orc.o_on ops) ]
         | _ -> base)
 
+(* normal form of a captured script by machine integers, for scripts too long for the unary-number checker (its
+   numbers alone would not fit in memory): ops alternate Equal / non-Equal, none is empty, the walk is gap-free and
+   ends at both range ends, Equal ops pair equal items, and an Insert followed by an Equal has a first item different
+   from the Equal's first item.  Mirrors check_ops_loose + check_normal; used only above 100000 ops. *)
+let normal_big (s : seqs) os oe ns ne (ops : string) : bool =
+  let oldv k = s.olda.(k - s.ko) and newv k = s.newa.(k - s.kn) in
+  let parsed =
+    List.map
+      (fun t ->
+        match String.split_on_char ':' t with
+        | [ "E"; a; b; c ] -> ('E', int_of_string a, int_of_string b, int_of_string c, 0)
+        | [ "D"; a; b; c ] -> ('D', int_of_string a, int_of_string b, int_of_string c, 0)
+        | [ "I"; a; b; c ] -> ('I', int_of_string a, int_of_string b, int_of_string c, 0)
+        | [ "R"; a; b; c; d ] -> ('R', int_of_string a, int_of_string b, int_of_string c, int_of_string d)
+        | _ -> failwith "bad op")
+      (String.split_on_char ',' ops)
+  in
+  let rec seg_eq o n l = l = 0 || (oldv o = newv n && seg_eq (o + 1) (n + 1) (l - 1)) in
+  let rec go ops co cn prev_eq first =
+    match ops with
+    | [] -> co = oe && cn = ne
+    | ('E', o, n, l, _) :: r -> o = co && n = cn && l > 0 && (not prev_eq) && seg_eq o n l && go r (co + l) (cn + l) true false
+    | ('D', o, l, _, _) :: r -> o = co && l > 0 && (prev_eq || first) && go r (co + l) cn false false
+    | ('I', _, n, l, _) :: r ->
+        n = cn && l > 0 && (prev_eq || first)
+        && (match r with ('E', eo, _, _, _) :: _ -> oldv eo <> newv n | _ -> true)
+        && go r co (cn + l) false false
+    | ('R', o, ol, n, nl) :: r -> o = co && n = cn && ol > 0 && nl > 0 && (prev_eq || first) && go r (co + ol) (cn + nl) false false
+    | _ -> false
+  in
+  go parsed os ns false true
+
 let clauses_capture h (impl : string) : (string * bool) list =
   let s = parse_seqs h in
   let orc = oracles_of s in
@@ -193,6 +225,10 @@ let clauses_capture h (impl : string) : (string * bool) list =
   let dlo = parse_opt (get h "dl") in
   let alg = get h "alg" in
   if impl = "PANIC" || impl = "TIMEOUT" || impl = "ABORT" then [ ("no_panic", false) ]
+  else if String.length impl > 300_000 then
+    (* a script of several hundred thousand ops *)
+    let ih = parse_impl impl in
+    [ ("no_panic", true); ("normal_big", normal_big s os oe ns ne (get ih "ops")) ]
   else
     let ih = parse_impl impl in
     let ops = calls_to_ops (parse_calls (get ih "ops")) in
